@@ -36,24 +36,30 @@ theorem finishDelete_keys_sublist (st : St) (o : Obj) (thr : Option Key) :
   · rw [deactivateObj_keys]; exact List.Sublist.refl _
   · exact removeObj_keys_sublist st o
 
-theorem deleteChild_sublist (rec : St → Obj → St) (hrec : ∀ s co, (rec s co).keys.Sublist s.keys)
-    (s : St) (c : Key) : (deleteChild rec s c).keys.Sublist s.keys := by
-  unfold deleteChild
-  split
-  · exact hrec _ _
-  · exact List.Sublist.refl _
-
-theorem foldl_sublist (g : St → Key → St) (hg : ∀ s c, (g s c).keys.Sublist s.keys) (cs : List Key) :
-    ∀ st : St, (cs.foldl g st).keys.Sublist st.keys := by
+theorem deleteChildren_sublist (rec : St → Obj → St × Bool) (hrec : ∀ s co, (rec s co).1.keys.Sublist s.keys) :
+    ∀ (cs : List Key) (s : St), (deleteChildren rec cs s).1.keys.Sublist s.keys := by
+  intro cs
   induction cs with
-  | nil => intro st; exact List.Sublist.refl _
-  | cons c cs ih => intro st; exact (ih (g st c)).trans (hg st c)
+  | nil => intro s; exact List.Sublist.refl _
+  | cons c cs ih =>
+    intro s
+    simp only [deleteChildren]
+    split
+    · split
+      · exact (ih _).trans (hrec _ _)
+      · exact hrec _ _
+    · exact ih s
 
 theorem deleteHelper_sublist : ∀ (f : Nat) (st : St) (o : Obj) (c : Bool) (busy : List Key) (thr : Option Key),
     (deleteHelper f st o c busy thr).1.keys.Sublist st.keys := by
   intro f
   induction f with
-  | zero => intro st o c busy thr; exact finishDelete_keys_sublist st o thr
+  | zero =>
+    intro st o c busy thr
+    simp only [deleteHelper]
+    split
+    · exact List.Sublist.refl _
+    · exact finishDelete_keys_sublist st o thr
   | succ f ih =>
     intro st o c busy thr
     simp only [deleteHelper]
@@ -61,8 +67,11 @@ theorem deleteHelper_sublist : ∀ (f : Nat) (st : St) (o : Obj) (c : Bool) (bus
     · exact List.Sublist.refl _
     · split
       · exact List.Sublist.refl _
-      · refine (finishDelete_keys_sublist _ o thr).trans ?_
-        exact foldl_sublist _ (fun s k => deleteChild_sublist _ (fun s co => ih s co c _ thr) s k) _ st
+      · have hch := deleteChildren_sublist (fun s co => deleteHelper f s co c (o.key :: busy) thr)
+          (fun s co => ih s co c _ thr) (children st o.key) st
+        split
+        · exact (finishDelete_keys_sublist _ o thr).trans hch
+        · exact hch
 
 theorem deleteObject_sublist (st : St) (k : Key) (c : Bool) (thr : Option Key) :
     (deleteObject st k c thr).1.keys.Sublist st.keys := by
